@@ -37,6 +37,12 @@ JudgeHmac(ev) ==
 JudgePbkdf2(ev) ==
   LET dk == M!Pbkdf2(ev.facts, 32, ev.salt, ev.c, ev.dklen) IN
   IF dk = <<>> THEN {V("C16", "Pbkdf2MissingFact")} ELSE IF dk = ev.dk THEN {} ELSE {V("C16", "Pbkdf2")}
+\* a long derived key: the listed blocks T_i (block counters beyond 8, 16 and 24 bits) against the standard construction
+JudgePbkdf2Sel(ev) ==
+  LET bad == {i \in 1..Len(ev.blocks) :
+                LET b == M!Block(ev.facts, ev.salt, ev.c, ev.blocks[i].i) IN
+                b = <<>> \/ SubSeq(b, 1, Len(ev.blocks[i].dk)) # ev.blocks[i].dk} IN
+  IF bad = {} /\ Len(ev.blocks) > 0 THEN {} ELSE {V("C16", "Pbkdf2Block")}
 JudgeDes(ev) ==
   IF DS!CryptBlockBytes(ev.key, ev.salt, ev.count, ev.in, ev.dec = 1) = ev.out THEN {} ELSE {V("C17", "DesBlock")}
 
@@ -58,6 +64,7 @@ Step ==
      CASE ev.e = "digest" -> viol' = viol \cup JudgeDigest(ev) /\ cnt' = [cnt EXCEPT !.digest = @ + 1] /\ UNCHANGED keys
        [] ev.e = "hmac" -> viol' = viol \cup JudgeHmac(ev) /\ cnt' = [cnt EXCEPT !.hmac = @ + 1] /\ UNCHANGED keys
        [] ev.e = "pbkdf2" -> viol' = viol \cup JudgePbkdf2(ev) /\ cnt' = [cnt EXCEPT !.pbkdf2 = @ + 1] /\ UNCHANGED keys
+       [] ev.e = "pbkdf2sel" -> viol' = viol \cup JudgePbkdf2Sel(ev) /\ cnt' = [cnt EXCEPT !.pbkdf2 = @ + 1] /\ UNCHANGED keys
        [] ev.e = "des" -> viol' = viol \cup JudgeDes(ev) /\ cnt' = [cnt EXCEPT !.des = @ + 1] /\ UNCHANGED keys
        [] ev.e \in {"setkey_r", "setkey"} -> keys' = SetKey(ev.o, ev.kb) /\ UNCHANGED <<viol, cnt>>
        [] ev.e \in {"encrypt_r", "encrypt"} -> viol' = viol \cup JudgeEncrypt(ev) /\ cnt' = [cnt EXCEPT !.api = @ + 1] /\ UNCHANGED keys
